@@ -152,7 +152,7 @@ def initial_state(cfg):
 def properties(draw, cfg, yield_ratio=(1e-3, 1e-1)):
     """Admissible numeric properties (vector in cfg.pnames order) and the stiffness scale."""
     E = draw(gen.logfloat(-2, 4))
-    nu = draw(st.floats(-0.5, 0.45))
+    nu = draw(gen.floats(-0.5, 0.45))
     vals = {}
     K = E / 3 / (1 - 2 * nu)
     mu = 0.5 * E / (1 + nu)
@@ -160,15 +160,15 @@ def properties(draw, cfg, yield_ratio=(1e-3, 1e-1)):
     vals['poisson ratio'] = nu
     vals['bulk modulus'] = K
     vals['shear modulus'] = mu
-    vals['Jm parameter'] = draw(st.floats(3.0, 100.0))
-    Y0 = E * draw(st.floats(*yield_ratio))
+    vals['Jm parameter'] = draw(gen.floats(3.0, 100.0))
+    Y0 = E * draw(gen.floats(*yield_ratio))
     vals['yield strength'] = Y0
     vals['hardening modulus'] = E * draw(st.sampled_from([0.001, 0.01, 0.1, 1.0, 0.0]))
-    vals['saturation strength'] = Y0 * draw(st.floats(1.1, 3.0))
+    vals['saturation strength'] = Y0 * draw(gen.floats(1.1, 3.0))
     vals['reference plastic strain'] = draw(gen.logfloat(-3, 0))
-    vals['hardening exponent'] = draw(st.floats(1.0, 20.0))
-    vals['rate sensitivity stress'] = Y0 * draw(st.floats(0.01, 1.0))
-    vals['rate sensitivity exponent'] = draw(st.floats(1.0, 10.0))
+    vals['hardening exponent'] = draw(gen.floats(1.0, 20.0))
+    vals['rate sensitivity stress'] = Y0 * draw(gen.floats(0.01, 1.0))
+    vals['rate sensitivity exponent'] = draw(gen.floats(1.0, 10.0))
     vals['reference plastic strain rate'] = draw(gen.logfloat(-3, 1))
     vals['equilibrium bulk modulus'] = K
     vals['equilibrium shear modulus'] = mu
